@@ -246,6 +246,12 @@ def member(x, T):
         return False
 
 
+def get_origin_(t):
+    from funsor.typing import get_origin
+
+    return get_origin(t)
+
+
 def run_axioms(res, rng):
     from collections import OrderedDict
 
@@ -283,6 +289,9 @@ def run_axioms(res, rng):
              typing.Tuple[typing.Tuple[int, ...], typing.Tuple[int]], typing.Tuple[typing.Tuple[int, int], typing.Tuple[int]], typing.Tuple[T.Variable, typing.Tuple[int, str]],
              typing.Tuple[ops.Op, T.Funsor, T.Funsor], typing.Tuple[ops.AddOp, Tensor, T.Variable], typing.Tuple[typing.Union[int, str], ...],
              typing.Union[int, str], typing.Union[Tensor, T.Number], typing.Union[T.Funsor, int], typing.Union[Tensor, T.Variable, T.Number],
+             typing.Union[T.Number, T.Unary[ops.NegOp, T.Variable]], typing.Union[T.Number, T.Unary[ops.ExpOp, T.Variable]], typing.Union[typing.Tuple[int, int], str],
+             typing.Union[T.Binary[ops.MulOp, Tensor, T.Number], T.Variable], typing.Tuple[typing.Union[T.Number, T.Unary[ops.NegOp, T.Variable]], ...],
+             T.Unary[ops.NegOp, T.Variable], T.Unary[ops.NegOp, Tensor], T.Binary[ops.AddOp, Tensor, T.Number],
              typing.FrozenSet, typing.FrozenSet[int], typing.FrozenSet[str], typing.FrozenSet[T.Variable], typing.FrozenSet[T.Funsor], typing.FrozenSet[typing.Any],
              typing.FrozenSet[typing.Tuple[int, str]], typing.FrozenSet[typing.Union[int, str]],
              T.Binary[ops.AddOp, Tensor, T.Variable], T.Binary[ops.Op, T.Funsor, T.Funsor], T.Binary[ops.AssociativeOp, Tensor, T.Funsor], T.Binary[ops.MulOp, Tensor, T.Number],
@@ -297,6 +306,23 @@ def run_axioms(res, rng):
         if not any(p is q for q in uniq):
             uniq.append(p)
     pool = uniq
+    # parametrised types of different classes never coincide, whatever the order of construction
+    import gc as _gc
+
+    by_arity = {2: [T.Unary, T.Subs, T.Stack, T.Lambda, T.Variable, T.Number, T.Align], 3: [T.Binary, T.Reduce, T.Cat, Tensor],
+                4: [Contraction, T.Independent, T.Scatter, T.Approximate]}
+    for args in [(ops.AddOp, Tensor), (str, tuple), (T.Funsor, tuple), (Tensor, T.Variable, frozenset), (ops.Op, T.Funsor, T.Funsor), (str, tuple, str),
+                 (ops.AddOp, ops.MulOp, frozenset, tuple), (T.Funsor, str, str, str)]:
+        made = [(c, c[args]) for c in by_arity[len(args)]]
+        for (ca, xa), (cb, xb) in itertools.combinations(made, 2):
+            res.case(key="typecache:%s:%s:%s" % (ca.__name__, cb.__name__, args), nontrivial=True)
+            if xa is xb or get_origin_(xa) is not ca or get_origin_(xb) is not cb:
+                res.violation("typing:parametrised-types-conflated", "%s[%s] and %s[%s] are the same class object (origin %r / %r)" % (
+                    ca.__name__, args, cb.__name__, args, get_origin_(xa), get_origin_(xb)))
+            elif deep_issubclass(xa, cb) and not issubclass(ca, cb):
+                res.violation("typing:parametrised-types-conflated", "%s[%s] is reported a subclass of %s" % (ca.__name__, args, cb.__name__))
+        del made
+        _gc.collect()
     n = len(pool)
     res.count("axioms:pool-size", n)
     M = np.zeros((n, n), dtype=bool)
